@@ -15,14 +15,20 @@
 
 use anyhow::Context as _;
 use sciparse::{
+    checksum::ChecksumDigest,
+    core::{convert::TryFromView, view::View},
     dataplane_path::view::ScionDpPathViewExt,
+    header::model::AddressHeader,
     packet::{
         model::{ScionRawPacket, ScionScmpPacket},
         view::ScionRawPacketView,
     },
-    payload::scmp::{
-        model::{ScmpEchoReply, ScmpMessage},
-        view::ScmpMessageView,
+    payload::{
+        ProtocolNumber,
+        scmp::{
+            model::{ScmpEchoReply, ScmpMessage},
+            view::ScmpMessageView,
+        },
     },
 };
 
@@ -51,6 +57,25 @@ impl DefaultEchoHandler {
         let p = p_raw
             .try_as_scmp()
             .context("Packet is not a valid SCMP packet")?;
+
+        // Receivers must verify the SCMP checksum. A truncated message or a message with a wrong
+        // checksum is malformed and must not be answered.
+        let scmp_bytes = p.scmp().as_slice();
+        if scmp_bytes.len() != usize::from(p.header().payload_len()) {
+            anyhow::bail!("SCMP message is truncated");
+        }
+        let address_header = AddressHeader::try_from_view(p.header())
+            .context("Failed to decode address header")?;
+        let checksum = ChecksumDigest::with_pseudoheader(
+            &address_header,
+            ProtocolNumber::Scmp.into(),
+            scmp_bytes,
+        )
+        .add_slice(scmp_bytes)
+        .checksum();
+        if checksum != 0 {
+            anyhow::bail!("SCMP message has an invalid checksum");
+        }
 
         let reply_msg = match p.scmp().message() {
             ScmpMessageView::EchoRequest(r) => {
